@@ -22,6 +22,7 @@ func checkC20(c *chk.Ctx) {
 	c.Decided = []string{
 		"R20a positional mapping: every callback is invoked with response.<F>[i] where i is the index of its own call in the slice that toProto serialises into request.<F>",
 		"R20b a non-empty batch is answered through exactly one of Fail / handle; both walk every call slice that toProto serialises and invoke each element's callback on every iteration; the batcher adds every received call to a batch before receiving the next",
+		"R20h in the batcher's run loop a stopped linger timer never belongs to a batch that stays open: after every timer.Stop() the batch variable is re-assigned (nil or a fresh batch) before the loop waits again",
 		"R20c the multi-shard get callback leaves with its 'already answered' guard satisfied whenever it has closed the result channel",
 		"R20e the write stream appends the pending future and sends the request in one critical section, pops only the head on a response and fails every pending future when the stream closes",
 		"R20f a retried read attempt builds its response in an object allocated by that attempt (no accumulation across retries)",
@@ -33,6 +34,7 @@ func checkC20(c *chk.Ctx) {
 	}
 	ruleR20ab(h)
 	ruleR20run(h)
+	ruleR20timer(h)
 	ruleR20c(h)
 	ruleR20e(h)
 	ruleR20f(h)
@@ -813,4 +815,156 @@ func dispatchAnswersOnce(h *H, complete, disp *ssa.Function, dispCall ssa.CallIn
 		}
 	}
 	return ""
+}
+
+// ruleR20timer: the run loop keeps one batch variable and one timer variable. A batch that
+// holds calls is only sent when it is full or when its timer fires, so the pair must stay
+// in step: whoever stops the timer is done with the batch in the variable and has to put
+// nil or a fresh batch (with its own timer) there before the loop waits again. If the loop
+// can wait with a stopped timer and the same batch variable, that batch is either already
+// completed (the next call is added to a dead batch and never answered) or open without a
+// timer (its calls wait for traffic that may never come).
+func ruleR20timer(h *H) {
+	const rule = "R20h"
+	h.Rule(rule, "K1", "on every path from a timer.Stop() in the batcher's run loop (including its local closures) to the next wait, the batch variable is re-assigned", 2)
+	n := 0
+	for _, root := range h.P.ImplMethods("oxia/batch", "Batcher", "Run") {
+		h.Fn(ir.FuncName(root))
+		// the batch variable: a cell of the interface type Batch
+		isBatchCell := func(a *ssa.Alloc) bool {
+			pt, ok := a.Type().Underlying().(*types.Pointer)
+			return ok && ir.TypeIs(pt.Elem(), "oxia/batch", "Batch")
+		}
+		// closures of the run loop and the cells they capture
+		closures := map[*ssa.Function]*ssa.MakeClosure{}
+		ir.Instrs(root, func(in ssa.Instruction) {
+			if mc, ok := in.(*ssa.MakeClosure); ok {
+				if f, isF := mc.Fn.(*ssa.Function); isF {
+					closures[f] = mc
+				}
+			}
+		})
+		cellOf := func(fn *ssa.Function, addr ssa.Value) *ssa.Alloc {
+			switch x := addr.(type) {
+			case *ssa.Alloc:
+				return x
+			case *ssa.FreeVar:
+				if mc := closures[fn]; mc != nil {
+					for i, fv := range fn.FreeVars {
+						if fv == x && i < len(mc.Bindings) {
+							if a, ok := mc.Bindings[i].(*ssa.Alloc); ok {
+								return a
+							}
+						}
+					}
+				}
+			}
+			return nil
+		}
+		assignsBatch := func(fn *ssa.Function, in ssa.Instruction) bool {
+			st, ok := in.(*ssa.Store)
+			if !ok {
+				return false
+			}
+			c := cellOf(fn, st.Addr)
+			return c != nil && isBatchCell(c)
+		}
+		closureOfCall := func(in ssa.Instruction) *ssa.Function {
+			c := ir.CallOf(in)
+			if c == nil {
+				return nil
+			}
+			if mc, ok := c.Value.(*ssa.MakeClosure); ok {
+				if f, isF := mc.Fn.(*ssa.Function); isF {
+					return f
+				}
+			}
+			return nil
+		}
+		// a closure that re-assigns the batch variable on every path
+		mustAssign := map[*ssa.Function]bool{}
+		for f := range closures {
+			f := f
+			all := true
+			ir.Instrs(f, func(in ssa.Instruction) {
+				if ret, ok := in.(*ssa.Return); ok {
+					if ok2, _ := ir.MustPass(f, nil, ret, func(x ssa.Instruction) bool { return assignsBatch(f, x) }); !ok2 {
+						all = false
+					}
+				}
+			})
+			mustAssign[f] = all
+		}
+		reset := func(fn *ssa.Function) func(ssa.Instruction) bool {
+			return func(in ssa.Instruction) bool {
+				if assignsBatch(fn, in) {
+					return true
+				}
+				if g := closureOfCall(in); g != nil && mustAssign[g] {
+					return true
+				}
+				return false
+			}
+		}
+		isWait := func(in ssa.Instruction) bool {
+			if _, ok := in.(*ssa.Select); ok {
+				return true
+			}
+			u, ok := in.(*ssa.UnOp)
+			return ok && u.Op == token.ARROW
+		}
+		isStop := func(in ssa.Instruction) bool {
+			c := ir.CallOf(in)
+			if c == nil {
+				return false
+			}
+			f := c.StaticCallee()
+			return f != nil && f.Name() == "Stop" && f.Pkg != nil && f.Pkg.Pkg.Path() == "time" && f.Signature.Recv() != nil
+		}
+		fns := []*ssa.Function{root}
+		for f := range closures {
+			fns = append(fns, f)
+		}
+		sort.Slice(fns, func(i, j int) bool { return fns[i].String() < fns[j].String() })
+		for _, fn := range fns {
+			fn := fn
+			ir.Instrs(fn, func(in ssa.Instruction) {
+				if !isStop(in) {
+					return
+				}
+				n++
+				name := fmt.Sprintf("timer stop #%d in %s", n, ir.FuncName(fn))
+				bad := false
+				var w []int
+				if fn == root {
+					if r, path := ir.Reach(ir.Search{From: in, Barrier: reset(root)}, isWait); r {
+						bad, w = true, path
+					}
+				} else {
+					leaves := false
+					ir.Instrs(fn, func(x ssa.Instruction) {
+						if _, isRet := x.(*ssa.Return); isRet {
+							if r, _ := ir.Reach(ir.Search{From: in, Barrier: reset(fn)}, ir.Is(x)); r {
+								leaves = true
+							}
+						}
+					})
+					if leaves {
+						ir.Instrs(root, func(site ssa.Instruction) {
+							if closureOfCall(site) != fn {
+								return
+							}
+							if r, path := ir.Reach(ir.Search{From: site, Barrier: reset(root)}, isWait); r {
+								bad, w = true, path
+							}
+						})
+					}
+				}
+				h.Verdict(!bad, rule, name, h.pos(in), "the batch variable is re-assigned before the loop waits again", "the loop can wait again after stopping the linger timer without re-assigning the batch variable: the batch it holds is either already completed or stays open with no timer, and the calls in it (or added to it) are not answered until unrelated traffic arrives", witness(w))
+			})
+		}
+	}
+	if n == 0 {
+		h.Anchor(rule, "timer.Stop() calls in the Batcher.Run implementation")
+	}
 }
